@@ -61,11 +61,12 @@ Record st := mkst {
   ppd : option Z;
   entered : Z;          (* when the current phase's clock started *)
   closed : option Z;    (* Some t: the proxy closed the socket at t *)
-  nxt : phase           (* phase that follows the PROXY header when its timer runs concurrently *)
+  nxt : phase;          (* phase that follows the PROXY header when its timer runs concurrently *)
+  t0 : Z                (* readRequest's t0: when the first byte of the current request arrived *)
 }.
 
-Definition set_now t s := mkst t (ph s) (rd s) (ctxd s) (ppd s) (entered s) (closed s) (nxt s).
-Definition set_closed t s := mkst (now s) (ph s) (rd s) (ctxd s) (ppd s) (entered s) (Some t) (nxt s).
+Definition set_now t s := mkst t (ph s) (rd s) (ctxd s) (ppd s) (entered s) (closed s) (nxt s) (t0 s).
+Definition set_closed t s := mkst (now s) (ph s) (rd s) (ctxd s) (ppd s) (entered s) (Some t) (nxt s) (t0 s).
 
 (* Where is the PROXY header first waited for?  Any proxyproto.Conn method that calls
    readHeader blocks until the header is complete or its timer fires. *)
@@ -79,22 +80,22 @@ Definition pp_early : bool := pp_touch_accept || pp_touch_goroutine.
 
 (* readRequest entry: idle deadline, then Peek(1) *)
 Definition start_read_request (c : cfg) (s : st) : st :=
-  mkst (now s) PIdle (arm (idle_eff c) (now s)) None None (now s) (closed s) (nxt s).
+  mkst (now s) PIdle (arm (idle_eff c) (now s)) None None (now s) (closed s) (nxt s) (t0 s).
 (* maybeHandshakeTLS: context.WithTimeout(Background, TLSHandshakeTimeout); HandshakeContext *)
 Definition start_ltls (c : cfg) (s : st) : st :=
-  mkst (now s) PLTls (rd s) (arm (if ltls_timeout_guarded then c_tls c else 0) (now s)) None (now s) (closed s) (nxt s).
+  mkst (now s) PLTls (rd s) (arm (if ltls_timeout_guarded then c_tls c else 0) (now s)) None (now s) (closed s) (nxt s) (t0 s).
 Definition after_accept (c : cfg) (s : st) : st :=
   if c_has_tls c then start_ltls c s else start_read_request c s.
 
-Definition s_init : st := mkst 0 PIdle None None None 0 None PIdle.
+Definition s_init : st := mkst 0 PIdle None None None 0 None PIdle 0.
 
 Definition pp_timer (c : cfg) (t : Z) : option Z := arm (if pp_timeout_closes_conn then c_pp c else 0) t.
 
 Definition conn_start (c : cfg) : st :=
   if c_has_pp c then
-    if pp_early then mkst 0 PPHdr None None (pp_timer c 0) 0 None PIdle
+    if pp_early then mkst 0 PPHdr None None (pp_timer c 0) 0 None PIdle 0
     else let s1 := after_accept c s_init in
-         mkst 0 PPHdr (rd s1) (ctxd s1) (pp_timer c 0) 0 None (ph s1)
+         mkst 0 PPHdr (rd s1) (ctxd s1) (pp_timer c 0) 0 None (ph s1) 0
   else after_accept c s_init.
 
 Definition opt_eqb (a c : option Z) : bool :=
@@ -102,33 +103,33 @@ Definition opt_eqb (a c : option Z) : bool :=
 
 (* first byte of a request: t0 := now; header deadline *)
 Definition head_start (c : cfg) (s : st) : st :=
-  mkst (now s) PHead (arm (rhdr_eff c) (now s)) (ctxd s) (ppd s) (now s) (closed s) (nxt s).
+  mkst (now s) PHead (arm (rhdr_eff c) (now s)) (ctxd s) (ppd s) (now s) (closed s) (nxt s) (now s).
 (* head complete: "if !hdrDeadline.Equal(wholeReqDeadline) { SetReadDeadline(wholeReqDeadline) }" *)
 Definition rd_after_head (c : cfg) (s : st) : option Z :=
-  let hdr := arm (rhdr_eff c) (entered s) in
-  let whole := arm (c_read c) (entered s) in
+  let hdr := arm (rhdr_eff c) (t0 s) in
+  let whole := arm (c_read c) (t0 s) in
   if whole_set_guard_equal then (if opt_eqb hdr whole then rd s else whole) else whole.
 Definition head_done (c : cfg) (s : st) : st :=
-  mkst (now s) PUp (rd_after_head c s) (ctxd s) (ppd s) (now s) (closed s) (nxt s).
+  mkst (now s) PUp (rd_after_head c s) (ctxd s) (ppd s) (now s) (closed s) (nxt s) (t0 s).
 (* head complete, body outstanding: the same deadline handling, but a read from the client stays pending *)
 Definition head_done_body (c : cfg) (s : st) : st :=
-  mkst (now s) PBody (rd_after_head c s) (ctxd s) (ppd s) (now s) (closed s) (nxt s).
+  mkst (now s) PBody (rd_after_head c s) (ctxd s) (ppd s) (now s) (closed s) (nxt s) (t0 s).
 Definition body_done (s : st) : st :=
-  mkst (now s) PUp (rd s) (ctxd s) (ppd s) (now s) (closed s) (nxt s).
+  mkst (now s) PUp (rd s) (ctxd s) (ppd s) (now s) (closed s) (nxt s) (t0 s).
 (* CONNECT head complete *)
 Definition connect_done (c : cfg) (s : st) : st :=
   if c_mitm_on c then
     mkst (now s) PMPeek (if mitm_peek_deadline then arm (c_mitm c) (now s) else rd_after_head c s)
-         (ctxd s) (ppd s) (now s) (closed s) (nxt s)
-  else mkst (now s) PTunnel (rd_after_head c s) (ctxd s) (ppd s) (now s) (closed s) (nxt s).
+         (ctxd s) (ppd s) (now s) (closed s) (nxt s) (t0 s)
+  else mkst (now s) PTunnel (rd_after_head c s) (ctxd s) (ppd s) (now s) (closed s) (nxt s) (t0 s).
 (* first byte after the CONNECT reply: handshake context *)
 Definition mtls_start (c : cfg) (s : st) : st :=
   mkst (now s) PMTls (if mitm_peek_deadline then None else rd s)
-       (arm (if mitm_timeout_guarded then c_mitm c else 0) (now s)) (ppd s) (now s) (closed s) (nxt s).
-Definition clear_ctx (s : st) : st := mkst (now s) (ph s) (rd s) None (ppd s) (entered s) (closed s) (nxt s).
+       (arm (if mitm_timeout_guarded then c_mitm c else 0) (now s)) (ppd s) (now s) (closed s) (nxt s) (t0 s).
+Definition clear_ctx (s : st) : st := mkst (now s) (ph s) (rd s) None (ppd s) (entered s) (closed s) (nxt s) (t0 s).
 Definition pp_done (c : cfg) (s : st) : st :=
-  if pp_early then after_accept c (mkst (now s) (ph s) (rd s) (ctxd s) None (entered s) (closed s) (nxt s))
-  else mkst (now s) (nxt s) (rd s) (ctxd s) None (entered s) (closed s) (nxt s).
+  if pp_early then after_accept c (mkst (now s) (ph s) (rd s) (ctxd s) None (entered s) (closed s) (nxt s) (t0 s))
+  else mkst (now s) (nxt s) (rd s) (ctxd s) None (entered s) (closed s) (nxt s) (t0 s).
 
 Definition omin (a c : option Z) : option Z :=
   match a, c with
@@ -154,8 +155,9 @@ Inductive ev :=
 | DoneConnect      (* the client completes a CONNECT head (and receives the 200) *)
 | Reply            (* the origin answered and the response has been written; keep-alive *).
 
-Definition tick (d : Z) (s : st) : st :=
-  if d <? 0 then s else
+(* time passes while a read from the client is pending: the earliest armed deadline, if reached,
+   makes that read fail and the handler closes the connection *)
+Definition tick_plain (d : Z) (s : st) : st :=
   match closed s with
   | Some _ => set_now (now s + d) s
   | None =>
@@ -166,9 +168,28 @@ Definition tick (d : Z) (s : st) : st :=
     end
   end.
 
+(* ... except while the request BODY is outstanding: the failing read is the round trip's, which
+   answers with an error response (504) and lets the handler go on - the connection is not closed,
+   it returns to readRequest's idle wait at that moment (observed on the real proxy; the unread
+   body, should it still arrive, would be taken for the next request) *)
+Definition body_timeout (c : cfg) (s : st) (f : Z) : st :=
+  let t := Z.max f (now s) in
+  mkst t PIdle (arm (idle_eff c) t) (ctxd s) (ppd s) t None (nxt s) (t0 s).
+
+Definition body_fires (s : st) : bool :=
+  match closed s, ph s, fire_at s with None, PBody, Some _ => true | _, _, _ => false end.
+
+Definition tick (c : cfg) (d : Z) (s : st) : st :=
+  if d <? 0 then s else
+  match closed s, ph s, fire_at s with
+  | None, PBody, Some f =>
+      if f <=? now s + d then tick_plain (now s + d - Z.max f (now s)) (body_timeout c s f) else tick_plain d s
+  | _, _, _ => tick_plain d s
+  end.
+
 Definition step (c : cfg) (s : st) (e : ev) : st :=
   match e with
-  | Tick d => tick d s
+  | Tick d => tick c d s
   | _ =>
     match closed s with
     | Some _ => s
